@@ -36,8 +36,10 @@ int gd_get_sarray_slice(DIRFILE *D, const char *field_code, unsigned long start,
     ; /* Error already set */
   else if (E->field_type != GD_STRING_ENTRY && E->field_type != GD_SARRAY_ENTRY)
     _GD_SetError(D, GD_E_BAD_FIELD_TYPE, GD_E_FIELD_BAD, NULL, 0, field_code);
-  else if (start + n > ((E->field_type == GD_STRING_ENTRY) ? 1 :
-        E->EN(scalar,array_len)))
+  else if (n > ((E->field_type == GD_STRING_ENTRY) ? 1 :
+        E->EN(scalar,array_len)) ||
+      start > ((E->field_type == GD_STRING_ENTRY) ? 1 :
+        E->EN(scalar,array_len)) - n)
   {
     _GD_SetError(D, GD_E_BOUNDS, 0, NULL, 0, NULL);
   } else if (n == 0)
@@ -120,8 +122,10 @@ static void _GD_PutSarraySlice(DIRFILE *restrict D, gd_entry_t *restrict E,
     return;
   }
 
-  if (first + n > ((E->field_type == GD_STRING_ENTRY) ? 1 :
-        E->EN(scalar,array_len)))
+  if (n > ((E->field_type == GD_STRING_ENTRY) ? 1 :
+        E->EN(scalar,array_len)) ||
+      first > ((E->field_type == GD_STRING_ENTRY) ? 1 :
+        E->EN(scalar,array_len)) - n)
   {
     _GD_SetError(D, GD_E_BOUNDS, 0, NULL, 0, NULL);
     dreturnvoid();
